@@ -25,9 +25,10 @@ is emitted OUT OF LINE, in a later root.
 
 Out of line (`C04_out_of_line_after_root`): the right child `r` of And / Or / JumpIf… / NestedExpression is pushed on
 `root_stack`; EVERY instruction of the root that contains the owner (every in-line descendant of any `ρ` that has the
-owner among its in-line descendants) precedes EVERY instruction of the whole subtree of `r`.  What is not claimed: the
-mutual order of two out-of-line parts (it is last-scheduled-first, and the arms of an else-chain are scheduled together
-by the chain head, in source order, when the head is finished) — checked per input by the TREECHK / BUILD suites.
+owner among its in-line descendants) precedes EVERY instruction of the whole subtree of `r`.  The mutual order of two
+out-of-line parts (last pushed first; the arms of an else-chain are pushed together by the chain head, in source order):
+Props/C04Eval2.lean (`C04_out_of_line_lifo`); the total order of all attributed nodes: Props/C04Eval5.lean
+(`C04_evaluation_order_total_all`).
 
 `C04_evaluation_order` collects the rules as one relation `EmitBefore` and `C04_evaluation_order_total` shows that they
 decide the order of any two nodes of one root (up to Group / SideEffect ancestors, which emit nothing / bracket).
